@@ -127,7 +127,10 @@ StepResult(e, m1, rg1) ==
                     ELSE NonEmpty(<<IF ~RefsResolve(hp) THEN "ref:dangling" ELSE "">>) \o ReadClauses(hp, m1, e),
              hp |-> hp]
     [] e.op = "copy" ->
-         LET src == HeapAt(heap, e.src[1], e.src[2])
+         LET src0 == HeapAt(heap, e.src[1], e.src[2])
+             \* the source may be a nested compound part of a heap object (a view): spath is the local path to it
+             sp == IF "spath" \in DOMAIN e THEN e.spath ELSE <<>>
+             src == [b |-> src0.b, a |-> Nav(src0.t, mem[src0.b], src0.a, sp).a, t |-> ElemType(src0.t, sp), v |-> GetAt(src0.t, src0.v, sp)]
              inp == AsCopyInput(heap, src.t, src.v, src.b, src.b = e.b)
              cl == ConstructClauses("copy-", e.b, e.a, src.t, inp, e, m1)
              hp == heap \cup NewObjects(e.b, src.t, inp, m1, e.a)
@@ -169,7 +172,9 @@ StepResult(e, m1, rg1) ==
                    IN NonEmpty(<<
                         IF Mask(el, got) # Mask(el, nv) THEN "set:element-value@" \o Where(el, Mask(el, nv), Mask(el, got)) ELSE IF got # nv THEN "ref:word" ELSE "",
                         IF got = nv /\ deco # o1.v THEN "set:other-element-changed" ELSE "",
-                        IF Skel(el, mb, ea) # Skel(el, m0, ea) THEN (IF SkelNoStr(el, mb, ea) = SkelNoStr(el, m0, ea) THEN "set:string-box-size-changed" ELSE "set:size-or-shape-changed") ELSE "",
+                        \* the assigned element keeps its stored size and shape (what lies INSIDE a compound value that was assigned
+                        \* as a whole belongs to the new value: item sizes may be distributed differently)
+                        IF TopSkel(el, mb, ea) # TopSkel(el, m0, ea) THEN (IF el.k = "str" THEN "set:string-box-size-changed" ELSE "set:size-or-shape-changed") ELSE "",
                         IF others # {} THEN "set:other-object-changed" ELSE "",
                         IF ~RefsResolve(hp) THEN "ref:dangling" ELSE "">>) \o nt \o ReadClauses(hp, m1, e),
              hp |-> hp]
